@@ -220,10 +220,11 @@ def anyConvert : Nat → V → Out V
         | _ => .ok (.float .f64 b)
     | .str s => .ok (.str s)
     | .bool b => .ok (.bool b)
-    | .list _ | .bytes _ =>
-      match v.sliceElems? with
-      | some xs => (forIdx (fun i x => (anyConvert fuel x).addSeg s!"[{i}]") 0 xs).bind fun ys => .ok (.list ys)
-      | none => .panic
+    | .list xs =>
+      (forIdx (fun i x => (anyConvert fuel x).addSeg ("[" ++ toString i ++ "]")) 0 xs).bind fun ys => .ok (.list ys)
+    | .bytes b =>
+      (forIdx (fun i x => (anyConvert fuel x).addSeg ("[" ++ toString i ++ "]")) 0
+        (b.map fun (n : Nat) => V.int .uint8 (Int.ofNat n))).bind fun ys => .ok (.list ys)
     | .map _ kvs =>
       (forKV (fun k x =>
         match (anyConvert fuel k).addSeg ("{" ++ fmtKey k ++ "}") with
@@ -300,298 +301,314 @@ def Ty.reflectsAny : Ty → Bool
   | .any | .oneOf _ _ _ _ => true
   | _ => false
 
-/-! ### the schema operations -/
+/-! ### the schema operations
+
+Each schema kind has its own non-recursive function taking the recursive call `rec` (the
+operations on sub-schemas, one unit of fuel lower) as a parameter; `run` ties the knot. -/
+
+/-- the recursive call: operation, environment, sub-schema, value -/
+abbrev Rec := Op → Env → Ty → V → Out V
+
+def idxSeg (i : Nat) : String := "[" ++ toString i ++ "]"
+def keySeg (k : V) : String := "{" ++ fmtKey k ++ "}"
+def valSeg (k : V) : String := "[" ++ fmtKey k ++ "]"
+
+def runInt (op : Op) (min max : Option Int) (units : Option Units) (v : V) : Out V :=
+  match op with
+  | .U => (intInputMapper units v).bind fun n => (checkInt min max n).bind fun _ => .ok (.int .int64 n)
+  | .C => (intInputMapper units v).bind fun n => (checkInt min max n).bind fun _ => done
+  | .V => (asInt v).bind fun n => (checkInt min max n).bind fun _ => done
+  | .S => (asInt v).bind fun n => (checkInt min max n).bind fun _ => .ok (.int .int64 n)
+
+/-- `floatInputMapper` -/
+def floatInputMapper (x : Ext) (units : Option Units) : V → Out Nat
+  | .str s => match units with
+    | some u => match u.parseFloat x s with
+      | some b => .ok b
+      | none => .plain
+    | none => match x.parseFloat s with
+      | some b => .ok b
+      | none => .plain
+  | .int _ n => .ok (F64.ofInt n)
+  | .float _ b => .ok b
+  | .bool b => .ok (if b then F64.ofInt 1 else 0)
+  | _ => .plain
+
+def runFloat (x : Ext) (op : Op) (min max : Option Nat) (units : Option Units) (v : V) : Out V :=
+  match op with
+  | .U => (floatInputMapper x units v).bind fun b => (checkFloat min max b).bind fun _ => .ok (.float .f64 b)
+  | .C => (floatInputMapper x units v).bind fun b => (checkFloat min max b).bind fun _ => done
+  | .V => (asFloat v).bind fun b => (checkFloat min max b).bind fun _ => done
+  | .S => (asFloat v).bind fun b => (checkFloat min max b).bind fun _ => .ok (.float .f64 b)
+
+def runStr (x : Ext) (op : Op) (min max : Option Int) (pat : Option String) (v : V) : Out V :=
+  match op with
+  | .U => (stringInputMapper x v).bind fun s => (checkStr x min max pat s).bind fun _ => .ok (.str s)
+  | .C =>
+    match v with
+    | .str s => (checkStr x min max pat s).bind fun _ => done
+    | _ => .cerr
+  | .V => (asString v).bind fun s => (checkStr x min max pat s).bind fun _ => done
+  | .S => (asString v).bind fun s => (checkStr x min max pat s).bind fun _ => .ok (.str s)
+
+def runBool (op : Op) (v : V) : Out V :=
+  match op with
+  | .U => (boolInputMapper v).bind fun b => .ok (.bool b)
+  | .C => (boolInputMapper v).bind fun _ => done
+  | .V => (asBool v).bind fun _ => done
+  | .S => (asBool v).bind fun b => .ok (.bool b)
+
+def runPattern (x : Ext) (op : Op) (v : V) : Out V :=
+  match op with
+  | .U => (stringInputMapper x v).bind fun s => if x.reCompiles s then .ok (.regex s) else .cerr
+  | .V | .C =>
+    match v with
+    | .regex _ => done
+    | _ => .cerr
+  | .S =>
+    match v with
+    | .regex s => .ok (.str s)
+    | _ => .cerr
+
+def runEnumInt (op : Op) (vals : List Int) (units : Option Units) (v : V) : Out V :=
+  match op with
+  | .U => (rewrapC (intInputMapper units v)).bind fun n =>
+      if vals.contains n then .ok (.int .int64 n) else .cerr
+  | .S => (asInt v).bind fun n => if vals.contains n then .ok (.int .int64 n) else .cerr
+  | .V | .C => (asInt v).bind fun n => if vals.contains n then done else .cerr
+
+def runEnumStr (x : Ext) (op : Op) (vals : List String) (v : V) : Out V :=
+  match op with
+  | .U => (rewrapC (stringInputMapper x v)).bind fun s =>
+      if vals.contains s then .ok (.str s) else .cerr
+  | .S => (asString v).bind fun s => if vals.contains s then .ok (.str s) else .cerr
+  | .V | .C => (asString v).bind fun s => if vals.contains s then done else .cerr
+
+def runList (rec : Rec) (op : Op) (env : Env) (item : Ty) (min max : Option Int) (v : V) : Out V :=
+  match v.sliceElems? with
+  | none => .cerr
+  | some xs =>
+    match op with
+    | .U =>
+      (checkLen min max xs.length).bind fun _ =>
+        (forIdx (fun i e => (rec .U env item e).addSeg (idxSeg i)) 0 xs).bind fun ys => .ok (.list ys)
+    | .V =>
+      (checkLen min max xs.length).bind fun _ =>
+        (forIdx (fun i e => (rec .V env item e).addSeg (idxSeg i)) 0 xs).bind fun _ => done
+    | .S =>
+      (checkLen min max xs.length).bind fun _ =>
+        (forIdx (fun i e => (rec .V env item e).addSeg (idxSeg i)) 0 xs).bind fun _ =>
+          (forIdx (fun i e => (rec .S env item e).addSeg (idxSeg i)) 0 xs).bind fun ys => .ok (.list ys)
+    | .C =>
+      (forIdx (fun i e => (rec .C env item e).addSeg (idxSeg i)) 0 xs).bind fun _ => done
+
+/-- one entry of a map under operation `op`: key with `{k}` segment, value with `[k]` segment -/
+def entryKV (rec : Rec) (op : Op) (env : Env) (kt vt : Ty) (k e : V) : Out (V × V) :=
+  ((rec op env kt k).addSeg (keySeg k)).bind fun k' =>
+    ((rec op env vt e).addSeg (valSeg k)).bind fun e' => .ok (k', e')
+
+def runMap (rec : Rec) (op : Op) (env : Env) (kt vt : Ty) (min max : Option Int) (v : V) : Out V :=
+  match v.mapEntries? with
+  | none => .cerr
+  | some (_, kvs) =>
+    (checkLen min max kvs.length).bind fun _ =>
+    match op with
+    | .U =>
+      (forKV (entryKV rec .U env kt vt) kvs).bind fun kvs' =>
+        if dupKey kvs' then .cerr else .ok (.map ⟨kt.keyTy, vt.reflectsAny⟩ kvs')
+    | .V => (forKV (entryKV rec .V env kt vt) kvs).bind fun _ => done
+    | .C => (forKV (entryKV rec .C env kt vt) kvs).bind fun _ => done
+    | .S =>
+      (forKV (entryKV rec .V env kt vt) kvs).bind fun _ =>
+        (forKV (entryKV rec .S env kt vt) kvs).bind fun kvs' => .ok (.map .anyAny kvs')
+
+/-- defaults of absent properties are appended (`convertData`, second loop) -/
+def applyDefaults : List (String × PropT) → List (String × V) → Out (List (String × V))
+  | [], m => .ok m
+  | (id, p) :: rest, m =>
+    if hasKey id m then applyDefaults rest m else
+    match p.defaultV with
+    | none => applyDefaults rest m
+    | some none => .panic
+    | some (some d) => applyDefaults rest (m ++ [(id, d)])
+
+/-- every property that is set is unserialized by its type (`convertData`, third loop) -/
+def unserProps (rec : Rec) (env : Env) : List (String × PropT) → List (String × V) → Out (List (String × V))
+  | [], acc => .ok acc
+  | (id, p) :: rest, acc =>
+    match lookupS id acc with
+    | none => unserProps rec env rest acc
+    | some d =>
+      if p.disabled then .cerrAt [id] else
+      match (rec .U env p.ty d).addSeg id with
+      | .ok d' => unserProps rec env rest (setKey id d' acc)
+      | .err e => .err e
+      | .panic => .panic
+      | .fuel => .fuel
+
+/-- `ObjectSchema.Unserialize` up to the interdependency check: the property map -/
+def objRaw (rec : Rec) (env : Env) (props : List (String × PropT)) (v : V) : Out (List (String × V)) :=
+  match v.mapEntries? with
+  | none =>
+    match props with
+    | [(name, p)] =>
+      if p.disabled then .plain else
+      (rewrapP (rec .U env p.ty v)).bind fun r => .ok [(name, r)]
+    | _ => .cerr
+  | some (_, kvs) =>
+    match strKeys? kvs with
+    | none => .cerr
+    | some skvs =>
+      if skvs.any (fun kv => !(hasKey kv.1 props)) then .cerr else
+      (applyDefaults props skvs).bind fun m => unserProps rec env props m
+
+/-- `validateMapTypesCompatibility` -/
+def objCompatMap (rec : Rec) (env : Env) (props : List (String × PropT)) (m : List (String × V)) : Out V :=
+  (forSV (fun k e =>
+    match lookupS k props with
+    | none => .cerr
+    | some p =>
+      ((rewrapC (rec .C env p.ty e)).bind fun _ => if p.disabled then .cerr else done).addSeg k) m).bind fun _ =>
+    if props.any (fun kp => kp.2.required &&
+        (match lookupS kp.1 m with | none => true | some .nil => true | _ => false))
+    then .cerr else done
+
+def runObj (rec : Rec) (op : Op) (env : Env) (id : String) (props : List (String × PropT)) (v : V) : Out V :=
+  match op with
+  | .U =>
+    (objRaw rec env props v).bind fun m =>
+      (interdeps props (fun k => hasKey k m)).bind fun _ => .ok (toStrAny m)
+  | .V | .S =>
+    match v with
+    | .map ⟨.string, true⟩ kvs =>
+      match strKeys? kvs with
+      | none => .cerr  -- not a Go value: a map[string]any has string keys
+      | some m =>
+        (interdeps props (fun k => hasKey k m)).bind fun _ =>
+          (forSV (fun k e =>
+            match lookupS k props with
+            | none => .cerr
+            | some p => (rec op env p.ty e).addSeg k) m).bind fun m' =>
+            if op == .V then done else .ok (toStrAny m')
+    | _ => .cerr
+  | .C =>
+    match v with
+    | .map ⟨.string, true⟩ kvs =>
+      match strKeys? kvs with
+      | none => .cerr
+      | some m => objCompatMap rec env props m
+    | _ => (rewrapC (rec .U env (.obj id props) v)).bind fun _ => done
+
+/-- `selectMember` (+ the member's data compatibility when `compat`, = `validateMap`) -/
+def oneOfSelect (rec : Rec) (env : Env) (intKey : Bool) (disc : String) (inlined : Bool)
+    (members : List (Key × Ty)) (compat : Bool) (m : List (String × V)) : Out (Key × Ty × List (String × V)) :=
+  let typed : Option Key := match lookupS disc m with
+    | some (.int .int64 n) => if intKey then some (.i n) else none
+    | some (.str s) => if intKey then none else some (.s s)
+    | _ => none
+  match typed with
+  | none => .cerr
+  | some key =>
+    match lookupK key members with
+    | none => .cerr
+    | some mt =>
+      let clone := if inlined then m else eraseKey disc m
+      if compat then
+        (rewrapC (rec .C env mt (toStrAny clone))).bind fun _ => .ok (key, mt, clone)
+      else .ok (key, mt, clone)
+
+def oneOfUnser (rec : Rec) (x : Ext) (env : Env) (intKey : Bool) (disc : String) (inlined : Bool)
+    (members : List (Key × Ty)) (v : V) : Out V :=
+  match v with
+  | .nil => .plain
+  | _ =>
+    match v.mapEntries? with
+    | none => .cerr
+    | some (sh, kvs) =>
+      if !(sh.key == .any || sh.key == .string) then .cerr else
+      match kvs.find? (fun kv => match kv.1 with | .str s => s == disc | _ => false) with
+      | none => .cerr
+      | some (_, d) =>
+        let typed : Out Key :=
+          if intKey then (rewrapC (intInputMapper none d)).bind fun n => .ok (.i n)
+          else (rewrapC (stringInputMapper x d)).bind fun s => .ok (.s s)
+        typed.bind fun key =>
+          match strKeys? kvs with
+          | none => .cerr
+          | some m =>
+            match lookupK key members with
+            | none => .cerr
+            | some mt =>
+              let clone := if inlined then m else eraseKey disc m
+              (rec .U env mt (toStrAny clone)).bind fun r =>
+                match r with
+                | .map ⟨.string, true⟩ rk =>
+                  match strKeys? rk with
+                  | some rm => .ok (toStrAny (setKey disc key.toV rm))
+                  | none => .cerr
+                | _ => .ok r
+
+def runOneOf (rec : Rec) (x : Ext) (op : Op) (env : Env) (intKey : Bool) (disc : String) (inlined : Bool)
+    (members : List (Key × Ty)) (v : V) : Out V :=
+  match op with
+  | .U => oneOfUnser rec x env intKey disc inlined members v
+  | .V =>
+    match v with
+    | .map ⟨.string, true⟩ kvs =>
+      match strKeys? kvs with
+      | none => .cerr
+      | some m =>
+        (oneOfSelect rec env intKey disc inlined members false m).bind fun sel =>
+          ((rec .V env sel.2.1 (toStrAny sel.2.2)).addSeg ("{oneof[" ++ sel.1.fmt ++ "]}")).bind fun _ => done
+    | _ => .cerr
+  | .S =>
+    match v with
+    | .map ⟨.string, true⟩ kvs =>
+      match strKeys? kvs with
+      | none => .cerr
+      | some m =>
+        (oneOfSelect rec env intKey disc inlined members false m).bind fun sel =>
+          (rec .S env sel.2.1 (toStrAny sel.2.2)).bind fun r =>
+            match r with
+            | .map ⟨.string, true⟩ rk =>
+              match strKeys? rk with
+              | some rm => .ok (toStrAny (if hasKey disc rm then rm else rm ++ [(disc, sel.1.toV)]))
+              | none => .cerr
+            | _ => .panic  -- `serializedData.(map[string]any)` is an unchecked assertion
+    | _ => .cerr
+  | .C =>
+    match v with
+    | .map ⟨.string, true⟩ kvs =>
+      match strKeys? kvs with
+      | none => .cerr
+      | some m => (oneOfSelect rec env intKey disc inlined members true m).bind fun _ => done
+    | _ => .cerr
+
+def runAny (op : Op) (fuel : Nat) (v : V) : Out V :=
+  match op with
+  | .U | .S => anyConvert fuel v
+  | .V => (anyConvert fuel v).bind fun _ => done
+  | .C => anyCompat fuel v
 
 /-- One operation of the SDK on a schema and a Go value.
     `U`: Unserialize, result = the unserialized value.
     `V`: Validate, `C`: data-mode ValidateCompatibility, result = `done`.
     `S`: Serialize, result = the serialized value. -/
-def run (x : Ext) : Nat → Op → Env → Ty → V → Out V
-  | 0, _, _, _, _ => .fuel
-  | fuel + 1, op, env, t, v =>
+def run (x : Ext) : Nat → Rec
+  | 0 => fun _ _ _ _ => .fuel
+  | fuel + 1 => fun op env t v =>
     match t with
-    | .int min max units =>
-      match op with
-      | .U | .C =>
-        (intInputMapper units v).bind fun n => (checkInt min max n).bind fun _ =>
-          if op == .C then done else .ok (.int .int64 n)
-      | .V | .S =>
-        (asInt v).bind fun n => (checkInt min max n).bind fun _ =>
-          if op == .V then done else .ok (.int .int64 n)
-    | .float min max units =>
-      match op with
-      | .U | .C =>
-        let r : Out Nat := match v with
-          | .str s => match units with
-            | some u => match u.parseFloat x s with
-              | some b => .ok b
-              | none => .plain
-            | none => match x.parseFloat s with
-              | some b => .ok b
-              | none => .plain
-          | .int _ n => .ok (F64.ofInt n)
-          | .float _ b => .ok b
-          | .bool b => .ok (if b then F64.ofInt 1 else 0)
-          | _ => .plain
-        r.bind fun b => (checkFloat min max b).bind fun _ =>
-          if op == .C then done else .ok (.float .f64 b)
-      | .V | .S =>
-        (asFloat v).bind fun b => (checkFloat min max b).bind fun _ =>
-          if op == .V then done else .ok (.float .f64 b)
-    | .str min max pat =>
-      match op with
-      | .U => (stringInputMapper x v).bind fun s => (checkStr x min max pat s).bind fun _ => .ok (.str s)
-      | .C =>
-        match v with
-        | .str s => (checkStr x min max pat s).bind fun _ => done
-        | _ => .cerr
-      | .V | .S =>
-        (asString v).bind fun s => (checkStr x min max pat s).bind fun _ =>
-          if op == .V then done else .ok (.str s)
-    | .bool =>
-      match op with
-      | .U | .C => (boolInputMapper v).bind fun b => if op == .C then done else .ok (.bool b)
-      | .V | .S => (asBool v).bind fun b => if op == .V then done else .ok (.bool b)
-    | .pattern =>
-      match op with
-      | .U =>
-        (stringInputMapper x v).bind fun s => if x.reCompiles s then .ok (.regex s) else .cerr
-      | .V | .C =>
-        match v with
-        | .regex _ => done
-        | _ => .cerr
-      | .S =>
-        match v with
-        | .regex s => .ok (.str s)
-        | _ => .cerr
-    | .enumInt vals units =>
-      match op with
-      | .U =>
-        (rewrapC (intInputMapper units v)).bind fun n =>
-          if vals.contains n then .ok (.int .int64 n) else .cerr
-      | .V | .S | .C =>
-        (asInt v).bind fun n =>
-          if vals.contains n then (if op == .S then .ok (.int .int64 n) else done) else .cerr
-    | .enumStr vals =>
-      match op with
-      | .U =>
-        (rewrapC (stringInputMapper x v)).bind fun s =>
-          if vals.contains s then .ok (.str s) else .cerr
-      | .V | .S | .C =>
-        (asString v).bind fun s =>
-          if vals.contains s then (if op == .S then .ok (.str s) else done) else .cerr
-    | .list item min max =>
-      match v.sliceElems? with
-      | none => .cerr
-      | some xs =>
-        match op with
-        | .U =>
-          (checkLen min max xs.length).bind fun _ =>
-            (forIdx (fun i e => (run x fuel .U env item e).addSeg s!"[{i}]") 0 xs).bind fun ys =>
-              .ok (.list ys)
-        | .V =>
-          (checkLen min max xs.length).bind fun _ =>
-            (forIdx (fun i e => (run x fuel .V env item e).addSeg s!"[{i}]") 0 xs).bind fun _ => done
-        | .S =>
-          (checkLen min max xs.length).bind fun _ =>
-            (forIdx (fun i e => (run x fuel .V env item e).addSeg s!"[{i}]") 0 xs).bind fun _ =>
-              (forIdx (fun i e => (run x fuel .S env item e).addSeg s!"[{i}]") 0 xs).bind fun ys =>
-                .ok (.list ys)
-        | .C =>
-          (forIdx (fun i e => (run x fuel .C env item e).addSeg s!"[{i}]") 0 xs).bind fun _ => done
-    | .map kt vt min max =>
-      match v.mapEntries? with
-      | none => .cerr
-      | some (_, kvs) =>
-        (checkLen min max kvs.length).bind fun _ =>
-        match op with
-        | .U =>
-          (forKV (fun k e =>
-            match (run x fuel .U env kt k).addSeg ("{" ++ fmtKey k ++ "}") with
-            | .ok k' => match (run x fuel .U env vt e).addSeg ("[" ++ fmtKey k ++ "]") with
-              | .ok e' => .ok (k', e')
-              | .err er => .err er
-              | .panic => .panic
-              | .fuel => .fuel
-            | .err er => .err er
-            | .panic => .panic
-            | .fuel => .fuel) kvs).bind fun kvs' =>
-            if dupKey kvs' then .cerr else .ok (.map ⟨kt.keyTy, vt.reflectsAny⟩ kvs')
-        | .V | .C =>
-          (forKV (fun k e =>
-            match (run x fuel op env kt k).addSeg ("{" ++ fmtKey k ++ "}") with
-            | .ok _ => match (run x fuel op env vt e).addSeg ("[" ++ fmtKey k ++ "]") with
-              | .ok _ => .ok (k, e)
-              | .err er => .err er
-              | .panic => .panic
-              | .fuel => .fuel
-            | .err er => .err er
-            | .panic => .panic
-            | .fuel => .fuel) kvs).bind fun _ => done
-        | .S =>
-          (forKV (fun k e =>
-            match (run x fuel .V env kt k).addSeg ("{" ++ fmtKey k ++ "}") with
-            | .ok _ => match (run x fuel .V env vt e).addSeg ("[" ++ fmtKey k ++ "]") with
-              | .ok _ => .ok (k, e)
-              | .err er => .err er
-              | .panic => .panic
-              | .fuel => .fuel
-            | .err er => .err er
-            | .panic => .panic
-            | .fuel => .fuel) kvs).bind fun _ =>
-          (forKV (fun k e =>
-            match (run x fuel .S env kt k).addSeg ("{" ++ fmtKey k ++ "}") with
-            | .ok k' => match (run x fuel .S env vt e).addSeg ("[" ++ fmtKey k ++ "]") with
-              | .ok e' => .ok (k', e')
-              | .err er => .err er
-              | .panic => .panic
-              | .fuel => .fuel
-            | .err er => .err er
-            | .panic => .panic
-            | .fuel => .fuel) kvs).bind fun kvs' => .ok (.map .anyAny kvs')
-    | .obj _ props =>
-      match op with
-      | .U =>
-        let raw : Out (List (String × V)) :=
-          match v.mapEntries? with
-          | none =>
-            match props with
-            | [(name, p)] =>
-              if p.disabled then .plain else
-              (rewrapP (run x fuel .U env p.ty v)).bind fun r => .ok [(name, r)]
-            | _ => .cerr
-          | some (_, kvs) =>
-            match strKeys? kvs with
-            | none => .cerr
-            | some skvs =>
-              if skvs.any (fun (k, _) => !(hasKey k props)) then .cerr else
-              -- defaults for absent properties
-              let withDefaults : Out (List (String × V)) :=
-                props.foldl (fun acc (id, p) =>
-                  acc.bind fun m =>
-                    if hasKey id m then .ok m else
-                    match p.defaultV with
-                    | none => .ok m
-                    | some none => .panic
-                    | some (some d) => .ok (m ++ [(id, d)])) (.ok skvs)
-              withDefaults.bind fun m =>
-                -- unserialize every property that is set, in property order
-                let rec goProps : List (String × PropT) → List (String × V) → Out (List (String × V))
-                  | [], acc => .ok acc
-                  | (id, p) :: rest, acc =>
-                    match lookupS id acc with
-                    | none => goProps rest acc
-                    | some d =>
-                      if p.disabled then .cerrAt [id] else
-                      match (run x fuel .U env p.ty d).addSeg id with
-                      | .ok d' => goProps rest (setKey id d' acc)
-                      | .err e => .err e
-                      | .panic => .panic
-                      | .fuel => .fuel
-                goProps props m
-        raw.bind fun m => (interdeps props (fun k => hasKey k m)).bind fun _ => .ok (toStrAny m)
-      | .V | .S =>
-        match v with
-        | .map ⟨.string, true⟩ kvs =>
-          match strKeys? kvs with
-          | none => .panic
-          | some m =>
-            (interdeps props (fun k => hasKey k m)).bind fun _ =>
-              (forSV (fun k e =>
-                match lookupS k props with
-                | none => .cerr
-                | some p => (run x fuel op env p.ty e).addSeg k) m).bind fun m' =>
-                if op == .V then done else .ok (toStrAny m')
-        | _ => .cerr
-      | .C =>
-        match v with
-        | .map ⟨.string, true⟩ kvs =>
-          match strKeys? kvs with
-          | none => .panic
-          | some m =>
-            (forSV (fun k e =>
-              match lookupS k props with
-              | none => .cerr
-              | some p =>
-                ((rewrapC (run x fuel .C env p.ty e)).bind fun _ =>
-                  if p.disabled then .cerr else done).addSeg k) m).bind fun _ =>
-              if props.any (fun (id, p) => p.required &&
-                  (match lookupS id m with | none => true | some .nil => true | _ => false))
-              then .cerr else done
-        | _ => (rewrapC (run x fuel .U env t v)).bind fun _ => done
-    | .oneOf intKey disc inlined members =>
-      -- `selectMember`: discriminator of the exact key type, member lookup;
-      -- `validateMap` (compat = true) adds the member's data-mode compatibility check
-      let validateMap (compat : Bool) (m : List (String × V)) : Out (Key × Ty × List (String × V)) :=
-        let typed : Option Key := match lookupS disc m with
-          | some (.int .int64 n) => if intKey then some (.i n) else none
-          | some (.str s) => if intKey then none else some (.s s)
-          | _ => none
-        match typed with
-        | none => .cerr
-        | some key =>
-          match lookupK key members with
-          | none => .cerr
-          | some mt =>
-            let clone := if inlined then m else eraseKey disc m
-            if compat then
-              (rewrapC (run x fuel .C env mt (toStrAny clone))).bind fun _ => .ok (key, mt, clone)
-            else .ok (key, mt, clone)
-      match op with
-      | .U =>
-        match v with
-        | .nil => .plain
-        | _ =>
-          match v.mapEntries? with
-          | none => .cerr
-          | some (sh, kvs) =>
-            if !(sh.key == .any || sh.key == .string) then .cerr else
-            match kvs.find? (fun (k, _) => match k with | .str s => s == disc | _ => false) with
-            | none => .cerr
-            | some (_, d) =>
-              let typed : Out Key :=
-                if intKey then (rewrapC (intInputMapper none d)).bind fun n => .ok (.i n)
-                else (rewrapC (stringInputMapper x d)).bind fun s => .ok (.s s)
-              typed.bind fun key =>
-                match strKeys? kvs with
-                | none => .cerr
-                | some m =>
-                  match lookupK key members with
-                  | none => .cerr
-                  | some mt =>
-                    let clone := if inlined then m else eraseKey disc m
-                    (run x fuel .U env mt (toStrAny clone)).bind fun r =>
-                      match r with
-                      | .map ⟨.string, true⟩ rk =>
-                        match strKeys? rk with
-                        | some rm => .ok (toStrAny (setKey disc key.toV rm))
-                        | none => .panic
-                      | _ => .ok r
-      | .V | .S =>
-        match v with
-        | .map ⟨.string, true⟩ kvs =>
-          match strKeys? kvs with
-          | none => .panic
-          | some m =>
-            (validateMap false m).bind fun (key, mt, clone) =>
-              if op == .V then
-                ((run x fuel .V env mt (toStrAny clone)).addSeg ("{oneof[" ++ key.fmt ++ "]}")).bind fun _ => done
-              else
-                (run x fuel .S env mt (toStrAny clone)).bind fun r =>
-                  match r with
-                  | .map ⟨.string, true⟩ rk =>
-                    match strKeys? rk with
-                    | some rm => .ok (toStrAny (if hasKey disc rm then rm else rm ++ [(disc, key.toV)]))
-                    | none => .panic
-                  | _ => .panic
-        | _ => .cerr
-      | .C =>
-        match v with
-        | .map ⟨.string, true⟩ kvs =>
-          match strKeys? kvs with
-          | none => .panic
-          | some m => (validateMap true m).bind fun _ => done
-        | _ => .cerr
+    | .int min max units => runInt op min max units v
+    | .float min max units => runFloat x op min max units v
+    | .str min max pat => runStr x op min max pat v
+    | .bool => runBool op v
+    | .pattern => runPattern x op v
+    | .enumInt vals units => runEnumInt op vals units v
+    | .enumStr vals => runEnumStr x op vals v
+    | .list item min max => runList (run x fuel) op env item min max v
+    | .map kt vt min max => runMap (run x fuel) op env kt vt min max v
+    | .obj id props => runObj (run x fuel) op env id props v
+    | .oneOf intKey disc inlined members => runOneOf (run x fuel) x op env intKey disc inlined members v
     | .ref id =>
       match lookupS id env with
       | none => .panic
@@ -600,9 +617,6 @@ def run (x : Ext) : Nat → Op → Env → Ty → V → Out V
       match lookupS root objs with
       | none => .panic
       | some o => run x fuel op objs o v
-    | .any =>
-      match op with
-      | .U | .V | .S => (anyConvert (fuel + 1) v).bind fun r => if op == .V then done else .ok r
-      | .C => anyCompat (fuel + 1) v
+    | .any => runAny op (fuel + 1) v
 
 end Arca
